@@ -572,6 +572,10 @@ class MultiVector:
     def __getinitargs__(self):
         return (self.data, self.space)
 
+    def __getstate__(self):
+        # not the instance dict: the memoized hash is only valid in this process
+        return {"space": self.space, "data": self.data}
+
     mapper_method = "map_multivector"
 
     # {{{ stringification
